@@ -805,16 +805,22 @@ def p_describe_reuse(scs, mode):
     dictionaries inside them are rewritten) and described after every step (twice at the first and the last):
     every verdict — the summary or the refusal — must be the verdict on freshly built objects in that state.
     The hdpubkey_map objects are kept as long as the scenario's map does not change."""
+    with _memo_mul():
+        return _describe_reuse(scs, mode)
+
+
+def _describe_reuse(scs, mode):
     depth = 9 if mode else 2
     P, hmap = build(scs[0])
     cur_map = scs[0][3]
     for step, sc in enumerate(scs):
         Q, hq = build(sc)
+        ref = _dump(Q)
         if step:
             graft(P, Q, depth)
         if sc[3] != cur_map:
             hmap, cur_map = hq, sc[3]
-        if _dump(P) != _dump(build(sc)[0]):
+        if _dump(P) != ref:
             return f"step {step}: harness: the object edited in place is not in the state of the scenario"
         try:
             want = i_describe(sc)
@@ -830,7 +836,7 @@ def p_describe_reuse(scs, mode):
                         v[0], v[1], v[3], v[4], [o[1] for o in v[9]])
                 return (f"step {step} call {rep}: the reused object is {show(got)}, a fresh object in the same "
                         f"state is {show(want)}")
-            if _dump(P) != _dump(build(sc)[0]):
+            if _dump(P) != ref:
                 return f"step {step}: describe_basic_multisig changed the PSBT it describes"
     return None
 
@@ -1003,21 +1009,31 @@ def generate(ctx):
                     yield ("prop", "tamper_rejected", [kind.encode(), t])
                     yield ("corr", "describe", [t])
                     tlist.append((kind, t))
-                # ---- the same states on ONE object: tampered -> honest -> tampered -> honest (described twice),
-                # edited in place; then another honest state (an output pays less, the fee grows)
-                pref = [x for x in tlist if x[0] in ("amount-wit", "amount-nonwit", "both-utxo-amount", "swap-output-spk",
-                                                     "foreign-out-script-spk", "quorum-out", "one-cosigner-change",
-                                                     "second-change", "foreign-xpub", "foreign-in-script")]
-                ta = r.choice(tlist)
-                tb = r.choice(pref or tlist)
+                # ---- the same states on ONE object, edited in place between the descriptions: every tampering of
+                # the catalogue between two honest states (chunks of six), then another honest state (an output
+                # pays less, the fee grows); thorough tier also tampering -> tampering
                 sc2 = _copy.deepcopy(sc)
                 sc2[2][r.randrange(len(sc2[2]))][0] -= 100
                 n_seq += 1
-                for mode in ((n_seq % 2,) if ctx.tier == "quick" else (0, 1)):
+                for ci in range(0, len(tlist), 6):
+                    ch = tlist[ci:ci + 6]
+                    seq = [sc]
+                    for _, t in ch:
+                        seq += [t, sc]
+                    if ci == 0:
+                        seq += [sc2, sc]
+                    mode = 0 if (ci // 6) % 3 == n_seq % 3 else 1
                     ctx.label("reuse/" + ("objects-edited-in-place" if mode else "fields-assigned"))
-                    ctx.label("reuse tamper " + ta[0])
-                    ctx.label("reuse tamper " + tb[0])
-                    yield ("prop", "describe_reuse", [[ta[1], sc, tb[1], sc, sc2, sc], mode])
+                    for kind, _ in ch:
+                        ctx.label("reuse tamper " + kind)
+                    yield ("prop", "describe_reuse", [seq, mode])
+                    # the object is first seen in a tampered state, then made honest
+                    for kind, t in ch:
+                        ctx.label("reuse/tampered-first")
+                        yield ("prop", "describe_reuse", [[t, sc], 1])
+                    if ctx.tier != "quick":
+                        ctx.label("reuse/tamper-to-tamper")
+                        yield ("prop", "describe_reuse", [[t for _, t in reversed(ch)] + [sc], 1])
                 for t in mutations(ctx, sc, ctx.n(4, 20)):
                     yield ("corr", "describe", [t])
                     yield ("corr", "validate_in", [t, 0])
